@@ -63,8 +63,8 @@ func c17Coverage(c *kit.Ctx, r *kit.Rule, dec *c17Decoder, dm *c17DecModel) {
 	if se := dec.computedSlice; se != nil && dm != nil && dm.lf != nil {
 		first := true
 		flow := dm.lf
-		if dec.viaHelper() && dm.hlf != nil {
-			flow = dm.hlf
+		if dec.viaHelper() && dm.flowOf(dec.vf) != nil {
+			flow = dm.flowOf(dec.vf)
 		}
 		for _, st := range flow.Sites {
 			if st.Expr != ast.Expr(se) {
